@@ -704,6 +704,65 @@ def bulk_names_level(ctx):
             ctx.case("bulknames:candidate-%d" % k, sample=dict(case, kinds=kinds), key=["bulk-kind", i, k], nontrivial=k > 1)
 
 
+def date_list_quirk_level(ctx):
+    """the one place where Radicale rewrites a value on purpose (work-around for Evolution, item/__init__.py): EXDATE / RDATE of the
+    other value type than DTSTART are converted to DTSTART's type.  What must come back is the same *dates*: year, month and day of
+    every entry, in DTSTART's type, through GET and the export, and the stored object is a fixed point"""
+    rng = ctx.rng("datelists")
+    for i in range(ctx.n(24, 400)):
+        allday = rng.random() < 0.5
+        prop = rng.choice(["EXDATE", "RDATE", "both"])
+        days = sorted(rng.sample([(1, 9), (1, 16), (1, 23), (1, 30), (2, 6), (2, 13), (3, 5), (5, 3), (2, 2), (12, 1), (10, 31), (7, 4)], rng.randint(1, 3)))
+        fmt_other = (lambda m, d: "2024%02d%02dT100000Z" % (m, d)) if allday else (lambda m, d: "2024%02d%02d" % (m, d))
+        lines = ["BEGIN:VCALENDAR", "VERSION:2.0", "PRODID:-//verif c14//EN", "BEGIN:VEVENT", "UID:q%d" % i, "DTSTAMP:20240101T000000Z"]
+        lines += ["DTSTART;VALUE=DATE:20240102", "DTEND;VALUE=DATE:20240103"] if allday else ["DTSTART:20240102T100000Z", "DTEND:20240102T110000Z"]
+        lines.append("RRULE:FREQ=WEEKLY;COUNT=60")
+        uploaded = {}
+        for pn in (["EXDATE", "RDATE"] if prop == "both" else [prop]):
+            sep_lines = rng.random() < 0.4 and len(days) > 1
+            vals = [fmt_other(m, d) for m, d in days]
+            par = "" if allday else ";VALUE=DATE"
+            if sep_lines:
+                lines += ["%s%s:%s" % (pn, par, v) for v in vals]
+            else:
+                lines.append("%s%s:%s" % (pn, par, ",".join(vals)))
+            uploaded[pn] = sorted("2024%02d%02d" % (m, d) for m, d in days)
+        lines += ["SUMMARY:date lists", "END:VEVENT", "END:VCALENDAR"]
+        body = "\r\n".join(lines) + "\r\n"
+        case = {"all_day": allday, "lists": uploaded, "upload": lines[6:-3]}
+        with App({"auth": {"type": "none"}}) as app:
+            app.request("MKCALENDAR", "/u/cal/", login="u:pw")
+            st, _, _ = app.request("PUT", "/u/cal/q.ics", body, login="u:pw", CONTENT_TYPE="text/calendar")
+            ctx.case("datelists:%s:%s" % ("date" if allday else "date-time", prop), sample=dict(case, status=st), key=["datelists", i], nontrivial=True)
+            if st != 201:
+                ctx.violation("an event with %s of the other value type than DTSTART was refused with %d" % (prop, st), case)
+                continue
+            for how, path in (("GET", "/u/cal/q.ics"), ("export", "/u/cal/")):
+                st2, _, text = app.request("GET", path, login="u:pw")
+                if st2 != 200:
+                    ctx.violation("%s answers %d" % (how, st2), case)
+                    continue
+                got = {}
+                wrong_type = []
+                for row in flatten(parse_content(text)):
+                    path_, n_, v = row[0], row[1], row[3]
+                    if path_.endswith("/VEVENT") and n_ in ("EXDATE", "RDATE"):
+                        for x in v.split(","):
+                            got.setdefault(n_, []).append(x[:8])
+                            if (len(x) == 8) != allday:
+                                wrong_type.append(x)
+                got = {k: sorted(v) for k, v in got.items()}
+                if got != uploaded:
+                    ctx.violation("the dates of %s do not come back (%s): uploaded %s, served %s" % (prop, how, uploaded, got), dict(case, read=how))
+                elif wrong_type:
+                    ctx.disagree("converted date lists have DTSTART's value type", dict(case, read=how), wrong_type, "all of DTSTART's type")
+            st3, _, served = app.request("GET", "/u/cal/q.ics", login="u:pw")
+            st4, _, _ = app.request("PUT", "/u/cal/q.ics", served, login="u:pw", CONTENT_TYPE="text/calendar")
+            st5, _, again = app.request("GET", "/u/cal/q.ics", login="u:pw")
+            if st4 not in (201, 204) or again != served:
+                ctx.violation("the stored object with converted date lists is not a fixed point of re-upload (%s)" % st4, case)
+
+
 def witnesses(ctx):
     """the two unsafe shapes, on the running server: served content is not a fixed point"""
     shapes = {"F5": "DESCRIPTION:a" + " " * 150 + "b",
@@ -742,4 +801,5 @@ def run(ctx):
     individual_export_level(ctx)
     stock_encoding_level(ctx)
     bulk_names_level(ctx)
+    date_list_quirk_level(ctx)
     witnesses(ctx)
